@@ -33,6 +33,9 @@ class _Continue(Exception):
     pass
 
 
+_ACTIVE = []        # the evaluator in use (str() of a program object runs the __str__ the program wrote for it)
+
+
 class PObj:
     """an instance of a class of the program"""
 
@@ -41,6 +44,45 @@ class PObj:
 
     def __repr__(self):
         return '<%s object>' % self.cls
+
+    def __str__(self):
+        ev = _ACTIVE[-1] if _ACTIVE else None
+        if ev is not None and self.mod is not None:
+            for name in ('__str__', '__repr__'):
+                ok, f = ev.class_attr(self.mod, self.cls, name)
+                if ok and isinstance(f, PFunc):
+                    return ev.apply(f.bind(self), [], {})
+        return '<%s object>' % self.cls
+
+    def __format__(self, spec):
+        return format(str(self), spec)
+
+
+class _CtxGen:
+    """a call of a generator function decorated with @contextmanager, not yet entered: the `with` statement runs it"""
+
+    def __init__(self, f, args, kwargs):
+        self.f, self.args, self.kwargs = f, args, kwargs
+
+
+class _CtxFrame:
+    """the frame of a context-manager generator while its `with` statement runs: the body of the statement runs where the
+    generator yields"""
+
+    def __init__(self, body):
+        self.body, self.entered = body, False
+
+
+def _decorators(node):
+    out = set()
+    for d in getattr(node, 'decorator_list', []):
+        if isinstance(d, ast.Call):
+            d = d.func
+        if isinstance(d, ast.Name):
+            out.add(d.id)
+        elif isinstance(d, ast.Attribute):
+            out.add(d.attr)
+    return out
 
 
 class PClass:
@@ -137,7 +179,19 @@ INTRINSICS = {
     'datetime.datetime': _datetime.datetime, 'datetime.timedelta': _datetime.timedelta, 'datetime.date': _datetime.date,
     'datetime.timezone': _datetime.timezone, 'logging.exception': _quiet,
     'typing.cast': lambda t, v: v,
+    'dataclasses.asdict': lambda o: dict(o.attrs),
+    'dataclasses.astuple': lambda o: tuple(o.attrs.values()),
+    'dataclasses.replace': lambda o, **kw: PObj(o.mod, o.cls, dict(o.attrs, **kw)),
+    'dataclasses.field': lambda **kw: _DField(kw),
+    'dataclasses.dataclass': lambda *a, **k: (a[0] if a else (lambda c: c)),
 }
+
+
+class _DField:
+    """dataclasses.field(default=..., default_factory=...) as the initialiser of a field"""
+
+    def __init__(self, kw):
+        self.kw = kw
 
 
 def _pure_library():
@@ -196,6 +250,7 @@ class PyEval:
         self.steps, self.max_steps, self.max_depth = 0, max_steps, max_depth
         self._modenv = {}
         self.cov = None          # set((module, line)) of the statements interpreted, when a rule asks for it
+        _ACTIVE[:] = [self]
 
     # -- program structure --------------------------------------------------------------------
     def module(self, rel):
@@ -271,6 +326,31 @@ class PyEval:
                     todo.append(b.id)
         return False, None
 
+    def enum_of(self, pc):
+        """the enum a class of the program declares (class X(Enum): A = 1 ...): built with the functional API of the enum
+        module from the class-level constants, in their order; None for other classes"""
+        kinds = {'Enum': 'Enum', 'IntEnum': 'IntEnum', 'Flag': 'Flag', 'IntFlag': 'IntFlag'}
+        kind = None
+        for b in pc.node.bases:
+            nm = b.id if isinstance(b, ast.Name) else (b.attr if isinstance(b, ast.Attribute) else None)
+            if nm in kinds:
+                kind = kinds[nm]
+        if kind is None:
+            return None
+        key = (pc.mod.rel, 'enum:' + pc.name)
+        if key not in self._modenv:
+            import enum
+            members = []
+            env = Env()
+            for m in pc.node.body:
+                if isinstance(m, ast.Assign) and len(m.targets) == 1 and isinstance(m.targets[0], ast.Name):
+                    v = self.expr(m.value, env, pc.mod, pc.name, 0)
+                    env.vars[m.targets[0].id] = v
+                    if not m.targets[0].id.startswith('_'):
+                        members.append((m.targets[0].id, v))
+            self._modenv[key] = getattr(enum, kind)(pc.name, members)
+        return self._modenv[key]
+
     # -- calls --------------------------------------------------------------------------------
     def instantiate(self, mod, cls, args=(), kwargs=None, attrs=None):
         o = PObj(mod, cls, attrs)
@@ -301,9 +381,15 @@ class PyEval:
             params = [x.arg for x in a.posonlyargs + a.args]
             env = Env(f.closure)
             pos = list(args)
-            is_static = any(isinstance(d, ast.Name) and d.id == 'staticmethod' for d in getattr(node, 'decorator_list', []))
+            decos = _decorators(node)
+            is_static = 'staticmethod' in decos
+            if 'contextmanager' in decos and _is_generator(node) and not getattr(f, 'entering', False):
+                return _CtxGen(f, list(args), dict(kwargs))          # runs when the `with` statement enters it
             if f.recv is not None and not is_static:
-                pos = [f.recv] + pos
+                recv_ = f.recv
+                if 'classmethod' in decos and isinstance(recv_, PObj):
+                    recv_ = PClass(recv_.mod, recv_.mod.classes[recv_.cls])       # called through an instance: the class of it
+                pos = [recv_] + pos
             defaults = list(a.defaults)
             first_default = len(params) - len(defaults)
             for i, p in enumerate(params):
@@ -334,6 +420,22 @@ class PyEval:
                 raise AnalysisError('abstract evaluation: %s has no parameter %s' % (f, sorted(kwargs)))
             if isinstance(node, ast.Lambda):
                 return self.expr(node.body, env, f.mod, f.cls, depth + 1)
+            if _is_generator(node) and getattr(f, 'entering', False):
+                # the generator behind a `with` statement: the statement's body runs at its yield
+                if not hasattr(self, '_yields'):
+                    self._yields = []
+                frame = f.entering
+                self._yields.append(frame)
+                try:
+                    self.block(node.body, env, f.mod, f.cls, depth + 1)
+                except _Return as r_:
+                    if not frame.entered:
+                        raise Raised("RuntimeError: generator didn't yield", self.L(f.mod, node))
+                finally:
+                    self._yields.pop()
+                if not frame.entered:
+                    raise Raised("RuntimeError: generator didn't yield", self.L(f.mod, node))
+                return None
             if _is_generator(node):
                 # a generator function: its body is run to the end and what it yields is handed out afterwards, in order (the
                 # interleaving with the consumer is not modelled; a generator that never ends exhausts the step budget)
@@ -353,6 +455,12 @@ class PyEval:
                 return r.v
             return None
         if isinstance(f, PClass):
+            en_ = self.enum_of(f)
+            if en_ is not None:
+                try:
+                    return en_(*args, **kwargs)
+                except (ValueError, TypeError, KeyError) as x:
+                    raise Raised('%s: %s' % (type(x).__name__, x), '?')
             if any(isinstance(b, ast.Name) and b.id == 'NamedTuple' for b in f.node.bases):
                 # a real named tuple: ordered comparison, unpacking, _replace and field access behave as in the program
                 key = (f.mod.rel, 'namedtuple:' + f.name)
@@ -371,16 +479,40 @@ class PyEval:
                     return dict(*args, **kwargs)         # calling a TypedDict class builds a plain dict
                 except (TypeError, ValueError) as x:
                     raise Raised('%s: %s' % (type(x).__name__, x), '?')
-            if not f.mod.funcs.get(f.name + '.__init__'):
-                fields = [m.target.id for m in f.node.body if isinstance(m, ast.AnnAssign) and isinstance(m.target, ast.Name)]
-                o = PObj(f.mod, f.name)
-                for n_, v_ in zip(fields, args):
-                    o.attrs[n_] = v_
+            if not self.class_attr(f.mod, f.name, '__init__')[0]:
+                # a record class (dataclass): its annotated names are the fields, in declaration order
+                decl = [m for m in f.node.body if isinstance(m, ast.AnnAssign) and isinstance(m.target, ast.Name)
+                        and not (isinstance(m.annotation, ast.Subscript) and getattr(m.annotation.value, 'id', getattr(m.annotation.value, 'attr', '')) == 'ClassVar')]
+                fields = [m.target.id for m in decl]
+                if len(args) > len(fields):
+                    raise Raised('TypeError: %s takes %d positional arguments but %d were given' % (f.name, len(fields), len(args)), '?')
+                given = dict(zip(fields, args))
                 for k_, v_ in kwargs.items():
+                    if k_ in given:
+                        raise Raised('TypeError: %s got multiple values for argument %r' % (f.name, k_), '?')
+                    given[k_] = v_
+                o = PObj(f.mod, f.name)
+                for m in decl:
+                    n_ = m.target.id
+                    if n_ in given:
+                        o.attrs[n_] = given.pop(n_)
+                    elif m.value is not None:
+                        v_ = self.expr(m.value, Env(), f.mod, f.name, depth)
+                        if isinstance(v_, _DField):
+                            if 'default_factory' in v_.kw:
+                                v_ = self.apply(v_.kw['default_factory'], [], {}, depth)
+                            elif 'default' in v_.kw:
+                                v_ = v_.kw['default']
+                            else:
+                                raise Raised('TypeError: %s missing required argument %r' % (f.name, n_), '?')
+                        o.attrs[n_] = v_
+                    elif 'dataclass' in _decorators(f.node):
+                        raise Raised('TypeError: %s missing required argument %r' % (f.name, n_), '?')
+                for k_, v_ in given.items():
                     o.attrs[k_] = v_
-                for m in f.node.body:
-                    if isinstance(m, ast.AnnAssign) and isinstance(m.target, ast.Name) and m.value is not None and m.target.id not in o.attrs:
-                        o.attrs[m.target.id] = self.expr(m.value, Env(), f.mod, f.name, depth)
+                ok_, post = self.class_attr(f.mod, f.name, '__post_init__')
+                if ok_:
+                    self.apply(post.bind(o), [], {}, depth)
                 return o
             return self.instantiate(f.mod, f.name, args, kwargs)
         if callable(f):
@@ -505,11 +637,31 @@ class PyEval:
                 self.block(s.orelse, env, mod, cls, depth)
             self.block(s.finalbody, env, mod, cls, depth)
         elif isinstance(s, ast.With):
-            for it in s.items:
+            def enter(i):
+                if i == len(s.items):
+                    self.block(s.body, env, mod, cls, depth)
+                    return
+                it = s.items[i]
                 v = ev(it.context_expr)
+                if isinstance(v, _CtxGen):
+                    # @contextmanager: the generator runs up to its yield, the rest of the statement runs there, then the
+                    # generator runs on (an exception or a return in the body leaves the generator at the yield)
+                    def body(value):
+                        fr = self._yields.pop()          # a yield in the body belongs to the function the statement is in
+                        try:
+                            if it.optional_vars is not None:
+                                self.store(it.optional_vars, value, env, mod, cls, depth)
+                            enter(i + 1)
+                        finally:
+                            self._yields.append(fr)
+                    g = PFunc(self, v.f.mod, v.f.node, v.f.cls, v.f.closure, v.f.recv)
+                    g.entering = _CtxFrame(body)
+                    self.apply(g, v.args, v.kwargs, depth)
+                    return
                 if it.optional_vars is not None:
                     self.store(it.optional_vars, v, env, mod, cls, depth)
-            self.block(s.body, env, mod, cls, depth)
+                enter(i + 1)
+            enter(0)
         elif isinstance(s, ast.Delete):
             for t in s.targets:
                 if isinstance(t, ast.Subscript):
@@ -563,10 +715,21 @@ class PyEval:
         return bool(v)
 
     def iterate(self, v, loc):
+        if isinstance(v, PClass):
+            en_ = self.enum_of(v)
+            if en_ is not None:
+                return list(en_)
         if isinstance(v, (list, tuple, set, frozenset, str, dict, range)) or hasattr(v, '__next__') or isinstance(v, (zip, enumerate, map, filter, reversed)):
             return v
         if isinstance(v, type({}.items())) or isinstance(v, type({}.keys())) or isinstance(v, type({}.values())):
             return v
+        if isinstance(v, PObj):
+            ok, f = self.class_attr(v.mod, v.cls, '__iter__')
+            if ok and isinstance(f, PFunc):
+                return self.iterate(self.apply(f.bind(v), [], {}), loc)
+        if isinstance(v, (PObj, PClass, PMod, PFunc)):
+            # an object of the program whose iteration the evaluator does not model: a gap of the analysis, not an error of the program
+            raise AnalysisError('abstract evaluation: iteration over %r at %s is outside the abstraction' % (v, loc))
         try:
             return iter(v)
         except TypeError:
@@ -668,7 +831,7 @@ class PyEval:
                 return o.attrs[name]
             ok, v = self.class_attr(o.mod, o.cls, name)
             if ok:
-                if isinstance(v, PFunc) and any(isinstance(d, ast.Name) and d.id == 'property' for d in getattr(v.node, 'decorator_list', [])):
+                if isinstance(v, PFunc) and 'property' in _decorators(v.node):
                     return self.apply(v.bind(o), [], {})          # @property: reading the attribute runs the getter
                 return v.bind(o) if isinstance(v, PFunc) else v
             if name == '__class__':
@@ -681,8 +844,15 @@ class PyEval:
                 return repl
             raise AnalysisError('abstract evaluation: attribute %s of %r is not part of the abstraction (%s)' % (name, o, loc))
         if isinstance(o, PClass):
+            en_ = self.enum_of(o)
+            if en_ is not None and name in en_.__members__:
+                return en_[name]
+            if en_ is not None and name == '__members__':
+                return dict(en_.__members__)
             ok, v = self.class_attr(o.mod, o.name, name)
             if ok:
+                if isinstance(v, PFunc) and 'classmethod' in _decorators(v.node):
+                    return v.bind(o)          # a class method named through the class: bound to that class
                 return v
             if name == '__new__':
                 return lambda cls_, *a, **k: PObj(cls_.mod, cls_.name)      # an instance whose __init__ has not run
@@ -712,6 +882,9 @@ class PyEval:
                 raise Raised('AttributeError: %s has no attribute %s' % (type(o).__name__, name), loc)
         if o is None:
             raise Raised("AttributeError: 'NoneType' object has no attribute %r" % name, loc)
+        import enum as _enum
+        if isinstance(o, _enum.Enum) and name in ('name', 'value'):
+            return getattr(o, name)
         if isinstance(o, _re.Match) and name in ('group', 'groups', 'start', 'end'):
             return getattr(o, name)
         if name in getattr(o, 'pyeval_native', ()):
@@ -875,6 +1048,13 @@ class PyEval:
         if isinstance(n, ast.Yield):
             if not getattr(self, '_yields', None):
                 raise AnalysisError('abstract evaluation: yield outside a generator at %s' % loc)
+            if isinstance(self._yields[-1], _CtxFrame):
+                frame = self._yields[-1]
+                if frame.entered:
+                    raise Raised("RuntimeError: generator didn't stop", loc)
+                frame.entered = True
+                frame.body(ev(n.value) if n.value is not None else None)
+                return None
             self._yields[-1].append(ev(n.value) if n.value is not None else None)
             return None
         if isinstance(n, ast.YieldFrom):
